@@ -18,7 +18,7 @@ RULE = ("seeded histories of constructor/concat/invert/index/compare ops over a 
         "binary_sequence objects, interleaved with scribble and freeze faults, checked op by op against a "
         "list-of-ints model; distinct = (op kind, container kind, length class, outcome class) signatures "
         "reached in runs with >=3 successful library ops; 'exh' tasks enumerate every word of one length <=12")
-WALL = {"quick": 60, "thorough": 120, "replay": 60}
+WALL = {"quick": 300, "thorough": 900, "replay": 600}
 BLOCK = {"quick": 100000, "thorough": 8192}
 SELFTEST = {"quick": 24, "thorough": 200}
 COMPONENTS_REAL = ["opticomlib.typing.binary_sequence", "opticomlib.typing.electrical_signal (__gt__/__lt__)",
@@ -85,7 +85,8 @@ def generate(seed, tier):
                 n = 1
             if rng.random() < 0.03:
                 ops.append({"op": "new", "kind": rng.choice(["str", "list", "arr_u8", "arr_bool"]),
-                            "n": rng.choice([1000, 4096, 5000]), "bseed": rng.getrandbits(32)})
+                            "n": rng.choice([1000, 4096, 5000, 70000] + ([300000, (1 << 20) + 1] if rng.random() < 0.1 else [])),
+                            "bseed": rng.getrandbits(32)})
             else:
                 ops.append({"op": "new", "kind": kind, "bits": _bits(rng, n)})
         elif k == "concat":
@@ -206,7 +207,7 @@ def _bad_value(what):
 
 
 def _lenclass(n):
-    return "0" if n == 0 else "1" if n == 1 else "s" if n <= 12 else "m" if n <= 300 else "L"
+    return "0" if n == 0 else "1" if n == 1 else "s" if n <= 12 else "m" if n <= 300 else "L" if n <= 5000 else "XL"
 
 
 # ----------------------------------------------------------------------------
